@@ -63,12 +63,20 @@ pub const FUEL_DEFAULT: usize = 400_000;
 
 pub fn set_fuel(n: usize) {
     FUEL_LIMIT.with(|f| f.set(n));
+    DEPTH_LIMIT.with(|d| d.set(MAX_TRACE_DEPTH));
 }
 
 pub fn set_fuel_from_oracle(rule_calls: usize) {
     set_fuel(rule_calls.saturating_mul(8) + 4_000);
+    // every rule entry is a rule call, so the nesting depth of a terminating parse is bounded the same way; a fixed depth
+    // (4000 once) is wrong for long inputs: `X = @:Xi | @:char X` nests one level per input character
+    DEPTH_LIMIT.with(|d| d.set(rule_calls.saturating_mul(2) + MAX_TRACE_DEPTH));
 }
+/// nesting bound when no oracle count is known (the stacks are 1 GB)
 pub const MAX_TRACE_DEPTH: usize = 4000;
+thread_local! {
+    static DEPTH_LIMIT: Cell<usize> = Cell::new(MAX_TRACE_DEPTH);
+}
 
 pub fn push_ctx_calls(v: Vec<HookCall>) {
     CTX_CALLS.with(|c| c.borrow_mut().extend(v));
@@ -101,7 +109,7 @@ impl ParseTracer for RecTracer {
         let pos = len.wrapping_sub(state.s().len());
         push_ev(TEv::Start { rule: name.to_string(), pos, depth: self.depth });
         self.depth += 1;
-        if self.depth > MAX_TRACE_DEPTH {
+        if self.depth > DEPTH_LIMIT.with(|d| d.get()) {
             panic!("VERIF_DEPTH: rule nesting depth exceeded");
         }
     }
